@@ -392,6 +392,9 @@ func c20ClassifyExit(x *engine.Exec, s *world.Snap, p world.Pos, err error) stri
 		if valueChangeAfterReward(x) {
 			return "reward-pool-short"
 		}
+		if anyRoundedUp(s) {
+			return "payout-on-rounded-up-token-amount"
+		}
 		return ""
 	case short && D != nil && D.Sign() > 0 && D.Cmp(ratI(1)) < 0:
 		return "full-exit-below-one-delegator-share"
